@@ -55,6 +55,8 @@ def gen_a(rng, sc, tier):
     pool = [("alice", "s3cret"), ("alice", "wrong"), ("bob", "builder"), ("bob", "Builder"), ("carol", "x" * 255), ("carol", "x" * 254), ("", ""), ("mallory", "s3cret"),
             ("dave", "late"), ("v4user", ""), ("alice", ""), (b"al\xffice", b"s3cret"), ("alice", b"s3cr\xe9t")]
     base = rng.choice(pool)
+    if use_cmd and rng.random() < 0.4:
+        base = ("bob", "builder")     # a pair only the external program knows: its verdict goes through the cache
     t = 100
     for k in range(n):
         r = rng.random()
@@ -62,6 +64,12 @@ def gen_a(rng, sc, tier):
             pair = base
         elif r < 0.55 and isinstance(base[0], str):
             pair = (base[0], rng.choice(["wrong", "", base[1] + "x"]) if isinstance(base[1], str) else "wrong")
+        elif r < 0.8 and isinstance(base[0], str) and isinstance(base[1], str):
+            # the same characters with the user/password boundary somewhere else (a verdict cache or a command line that
+            # joins the two must not confuse them), also around the usual separators
+            u, p = base
+            pair = rng.choice([(u + p[:1], p[1:]), (u[:-1], u[-1:] + p), (u + p, ""), ("", u + p), (u + ":" + p, ""), (u, p + ":"), (u + " ", p), (u, " " + p),
+                               (u + ":", p), (u, ":" + p), (u.upper(), p), (p, u)])
         else:
             pair = rng.choice(pool)
         t += rng.choice([0, 0, 1, 500, 1900, 2100, 3000, 9900, 10100]) if timeout else rng.choice([0, 1, 500, 3500])
@@ -80,6 +88,8 @@ def gen_a(rng, sc, tier):
             p = pair[1] if isinstance(pair[1], bytes) else pair[1].encode()
             if len(p) > 255:
                 p = p[:255]
+            if len(u) > 255:
+                u = u[:255]
             msg = rc.socks5_greeting(methods)
             ops = [send(msg), op("recv_n", n=2, label="method", on_fail="continue", timeout_ms=8000)]
             # whatever the server selected, a stubborn client sends its credentials (if it has method 2) and then the request
